@@ -1,8 +1,95 @@
 import RichModel.Drv.Proto
-/- Driver handlers for property C14 (stub: filled in when the model is built). -/
-namespace RichModel.Drv.C14
-open RichModel RichModel.Proto
+import RichModel.Model.Totality
+/-
+Driver handlers for property C14 (the exception layer of the string entry points).
 
-def handlers : List (String × (List String → String)) := []
+Wire format (fields separated by TAB; strings are space-separated decimal code points):
+  c14_lower  s                 -> lower(s)                          | unmodelled (final-sigma context)
+  c14_strip  s                 -> s.strip()
+  c14_split  s                 -> n:w1,w2,…
+  c14_int    s                 -> the value | -        (int() of a string of \d and \s characters)
+  c14_color  vErr s            -> ok:<type>:<number|->:<r.g.b|->:<name> | err:<Class>
+  c14_style  vErr s            -> ok:<str(style)>:<null 0/1>           | err:<Class>
+  c14_norm   vErr s            -> ok:<normal form>                     | err:<Class>
+  c14_markup vErr s            -> ok:<plain>|<start>.<stop>.<style>;…  | err:<Class>     (emoji=False)
+  c14_get_style vErr name def  -> ok | err:MissingStyle | err:Other    (def: `-` none, `o` a Style object, `s<str>` a str)
+`vErr` = 1: today's code where `int()`'s ValueError escapes `Color.parse` (F9); 0: the repaired code.
+-/
+namespace RichModel.Drv.C14
+open RichModel RichModel.Proto RichModel.Totality
+
+def P : PyStr := Py.real
+
+def encErr (e : Exc) : String := "err:" ++ e.name
+
+def encOptN : Option Nat → String
+  | none => "-"
+  | some n => toString n
+
+def encColor (c : Color) : String :=
+  "ok:" ++ toString c.type.toNat ++ ":" ++ encOptN c.number ++ ":" ++
+    (match c.triplet with
+     | none => "-"
+     | some t => toString t.red ++ "." ++ toString t.green ++ "." ++ toString t.blue) ++ ":" ++ encStr c.name
+
+def encSpan (s : Markup.Span) : String :=
+  toString s.start ++ "." ++ toString s.stop ++ "." ++ encStr s.style
+
+def decNS (s : String) : Option (Theme.NS Style) :=
+  if s == "-" then none
+  else if s == "o" then some (.style Style.null)
+  else some (.str (decStr (s.drop 1).toString))
+
+def handlers : List (String × (List String → String)) := [
+  ("c14_lower", fun a => match a with
+    | [s] => let x := decStr s
+      if Py.lowerUnmodelled x then "unmodelled" else encStr (P.lower x)
+    | _ => "bad-args"),
+  ("c14_strip", fun a => match a with
+    | [s] => encStr (strip P (decStr s))
+    | _ => "bad-args"),
+  ("c14_split", fun a => match a with
+    | [s] => encStrList (split P (decStr s))
+    | _ => "bad-args"),
+  ("c14_int", fun a => match a with
+    | [s] => encOptN (pyInt P (decStr s))
+    | _ => "bad-args"),
+  ("c14_color", fun a => match a with
+    | [v, s] => let x := decStr s
+      if Py.lowerUnmodelled x then "unmodelled"
+      else match UColor.parse P (decBool v) x with
+        | .ok c => encColor c
+        | .error e => encErr e
+    | _ => "bad-args"),
+  ("c14_style", fun a => match a with
+    | [v, s] => let x := decStr s
+      if Py.lowerUnmodelled x then "unmodelled"
+      else match UStyle.parse P (decBool v) x with
+        | .ok st => "ok:" ++ encStr (Style.str st) ++ ":" ++ encBool st.isNull
+        | .error e => encErr e
+    | _ => "bad-args"),
+  ("c14_norm", fun a => match a with
+    | [v, s] => let x := decStr s
+      if Py.lowerUnmodelled x then "unmodelled"
+      else match UStyle.normalize P (decBool v) x with
+        | .ok r => "ok:" ++ encStr r
+        | .error e => encErr e
+    | _ => "bad-args"),
+  ("c14_markup", fun a => match a with
+    | [v, s] => let x := decStr s
+      if Py.lowerUnmodelled x then "unmodelled"
+      else match markupRender P (decBool v) none x with
+        | .ok (plain, spans) => "ok:" ++ encStr plain ++ "|" ++ ";".intercalate (spans.map encSpan)
+        | .error e => encErr e
+    | _ => "bad-args"),
+  ("c14_get_style", fun a => match a with
+    | [v, name, d] => let x := decStr name
+      if Py.lowerUnmodelled x then "unmodelled"
+      else match getStyle P (decBool v) defaultStack (.str x) (decNS d) with
+        | .ok _ => "ok"
+        | .error .missingStyle => "err:MissingStyle"
+        | .error .other => "err:Other"
+    | _ => "bad-args")
+]
 
 end RichModel.Drv.C14
